@@ -500,9 +500,16 @@ pub fn gen_table(t: &mut Tape, c: &AggGenCfg) -> ATable {
         2 => 1,
         _ => t.range(1000, 3000) as usize,
     };
-    let mut rows = Vec::with_capacity(nr);
-    for _ in 0..nr {
+    let mut rows: Vec<Vec<V>> = Vec::with_capacity(nr);
+    // large tables repeat a block of generated rows (a tape long enough for thousands of
+    // independent cells would make every case expensive to generate and to shrink)
+    let fresh = if big { 37.min(nr) } else { nr };
+    for _ in 0..fresh {
         rows.push(cols.iter().enumerate().map(|(i, (_, ty))| gen_cell(t, ty, dens[i], c.exact_floats)).collect());
+    }
+    for i in fresh..nr {
+        let r = rows[i % fresh].clone();
+        rows.push(r);
     }
     ATable { cols, rows }
 }
